@@ -71,6 +71,7 @@ def zeroVal : Nat → Ty → Val
 /-- `len(val)` of an element that is itself a slice -/
 def sliceLen : Val → Nat
   | .slice _ xs => xs.length
+  | .bytes b => (b.getD []).length
   | _ => 0
 
 /-- `sliceDim`: (element type, dimensions, element count as an int32 bit pattern), for a value of Go
@@ -80,8 +81,8 @@ def sliceDim (base : Nat) : Nat → Val → Except Fail (VTag × List Nat × Nat
   | k + 1, .slice true _ => .ok (⟨base, k⟩, [], 4294967295)
   | k + 1, .slice false [] => .ok (⟨base, k⟩, [0], 0)
   | k + 1, .slice false (x :: xs) =>
-    -- `if val.Index(0).Kind() == reflect.Slice`: the elements are slices iff k > 0
-    if k > 0 ∧ ¬ (x :: xs).all (fun y => sliceLen y == sliceLen x) then .error .err
+    -- `if val.Index(0).Kind() == reflect.Slice`: the elements are slices iff k > 0 or they are ByteStrings
+    if (k > 0 ∨ base = 15) ∧ ¬ (x :: xs).all (fun y => sliceLen y == sliceLen x) then .error .err
     else do
       let (et, dim, count) ← sliceDim base k x
       pure (et, (xs.length + 1) :: dim, (count * (xs.length + 1)) % 4294967296)
